@@ -6,7 +6,7 @@
     result per recipient) are universally quantified: every theorem holds for
     every behaviour of net/mail and of the stores. *)
 From Coq Require Import String Ascii List Bool ZArith NArith.
-From Raven Require Import Base.GoStr Model.Lmtp Spec.LmtpDialog
+From Raven Require Import Base.GoStr Model.Lmtp Spec.LmtpDialog Spec.LmtpStream
      Proof.LmtpData Proof.LmtpDialog Proof.LmtpTx.
 Import ListNotations.
 Local Open Scope Z_scope.
@@ -189,3 +189,38 @@ Example c16_session_example :
                  (fst (run yes dl_ok c st0 MCmd ls))) = 3%nat /\
   snd (run yes dl_ok c st0 MCmd ls) = Some [L "NOOP"].
 Proof. vm_compute. repeat split; reflexivity. Qed.
+
+(** the executable whole-session spec [stream_ok] (evaluated on the
+    implementation's replies by the correspondence check) accepts the model's
+    own replies on that session and rejects them on the three witnesses *)
+Definition render (e : ev) : reply :=
+  match e with
+  | Reply _ code _ => (code, [])
+  | Deliver r _ ok => ((if ok then 250 else 550)%N, S_ "to <" ++ r ++ S_ ">")
+  end.
+Definition model_stream_ok (accepts : str -> bool) (c : cfg) (ls : list str) : bool :=
+  stream_ok (max_rcpts c) ls (map render (fst (run accepts dl_ok c st0 MCmd ls))).
+
+Example c16_stream_ok_examples :
+  let c := {| max_size := 1000; max_rcpts := 2 |} in
+  let body := [L "From: a@example.com"; L ""; L "."; L "RSET"; L "..x"] in
+  model_stream_ok yes c ([L "lhlo x"; L "Mail From:<a@example.com> SIZE=10"; L "rcpt to:<u1@example.com>";
+                          L "RCPT TO:<u2@example.com>"; L "RCPT TO:<u3@example.com>"; L "DATA"] ++ stuff body ++
+                         [dot_crlf; L "MAIL FROM:<b@example.com>"; L "RCPT TO:<u1@example.com>"; L "DATA"] ++
+                         stuff body ++ [dot_lf; L "QUIT"; L "NOOP"]) = true /\
+  model_stream_ok yes c10 [L "LHLO x"; L "MAIL FROM:<a@example.com>"; L "RCPT TO:<u1@example.com>"; L "DATA";
+                           L "0123456789ab"; L "RSET"; dot_crlf] = false /\
+  model_stream_ok no c10 [L "LHLO x"; L "MAIL FROM:<a@example.com>"; L "RCPT TO:<u1@example.com>";
+                          L "RCPT TO:<u2@example.com>"; L "DATA"; L "hello"; dot_crlf] = false /\
+  model_stream_ok yes c10 [L "LHLO x"; L "MAIL FROM:<>"; L "RCPT TO:<u1@example.com>"] = false.
+Proof. vm_compute. repeat split; reflexivity. Qed.
+
+(** Observation (not a listed finding, see NOTES/C16.md): [stuff] models a
+    client that treats every LF as a line end.  A client that stuffs only
+    after CRLF (RFC 5321) sends the body "a<LF>.<CRLF>RSET<CRLF>" unchanged;
+    the reader, which also accepts ".<LF>" and splits at bare LF, ends the
+    message at the second line and leaves RSET to the command loop. *)
+Example c16_bare_lf_observation :
+  read_data_cmd (S_ "a" ++ [LF] ++ S_ "." ++ crlf ++ S_ "RSET" ++ crlf ++ dot_crlf) 100
+  = (DOk (S_ "a" ++ [LF]), S_ "RSET" ++ crlf ++ dot_crlf).
+Proof. vm_compute. reflexivity. Qed.
